@@ -447,14 +447,32 @@ class Impl:
         ctor = getattr(P, cat)
         del self.warns[:]
         del self.read[:]
+        raised = None
+        self.C.exceptionOnWarning = bool(step.get("exc"))
         try:
             t = ctor(lemma) if lang is None else ctor(lemma, lang)
+        except self.P.PyrealbException:
+            # exceptionOnWarning: the first recorded warning is the constructor's own (the wrapper records, then raises)
+            if not (step.get("exc") and self.warns):
+                return {"k": "err:PyrealbException"}
+            raised, t = "PyrealbException", self.warns[0][0]
         except Exception as e:  # noqa
             return {"k": "err:" + type(e).__name__}
+        finally:
+            self.C.exceptionOnWarning = False
         tl = t.lang()
         mine = [w[1:] for w in self.warns if w[0] is t]       # warnings of this terminal (not of the words of the message)
         nil = [w for w in mine if w and w[0] == "not in lexicon"]
         ans = {"tl": tl, "warns": len(mine)}
+        if step.get("exc"):
+            ans["raised"] = raised
+        if raised and not nil:
+            # another warning of the constructor (e.g. "bad lexicon table" for a value that does not fit the language)
+            # became the exception: the entry was found
+            r = self.read[0] if self.read else None
+            ans.update(k="found", v=canon(r[cat]) if isinstance(r, dict) and cat in r else "<nothing-read>", tab=None,
+                       form="raised:" + str(mine[0][0] if mine else "?"))
+            return ans
         if nil:
             if nil[0][2] is None:
                 ans["k"] = "unknown"
@@ -462,10 +480,17 @@ class Impl:
                 ans["k"] = "other"
                 ans["pos"] = list(nil[0][2])
         else:
-            ans["k"] = "found"
             r = self.read[0] if self.read else None               # the first read is the constructor's own
-            ans["v"] = canon(r[cat]) if isinstance(r, dict) and cat in r else "<nothing-read>"
-            ans["tab"] = t.tab if hasattr(t, "tab") else None
+            if self.read and not (isinstance(r, dict) and cat in r) and not mine:
+                # nothing usable was read and NOTHING was reported: a silent unknown (kind from what was read)
+                ans["k"] = "unknown" if r is None else "other"
+                if r is not None:
+                    ans["pos"] = [k for k in r if k != "ldv"]
+                ans["silent"] = True
+            else:
+                ans["k"] = "found"
+                ans["v"] = canon(r[cat]) if isinstance(r, dict) and cat in r else "<nothing-read>"
+                ans["tab"] = t.tab if hasattr(t, "tab") else None
         try:
             if ans["k"] == "found":
                 if cat == "N":
@@ -474,7 +499,7 @@ class Impl:
                     t.g("f").n("p") if tl == "fr" else t.f("co")
                 elif cat == "V":
                     t.t("p").pe(1).n("p") if tl == "fr" else t.t("ps")
-            ans["form"] = t.realize()
+            ans["form"] = ("[[%s]]" % norm_lemma(lemma)) if raised else t.realize()
         except Exception as e:  # noqa
             ans["form"] = "err:" + type(e).__name__
         if ans["k"] == "found" and cat == "N":
@@ -715,6 +740,14 @@ def oracle_history(W, h, init, answers):
             if "d" in a:
                 return {"sig": "state:term:%s-outcome:lexicon-changed-by-terminal-construction" % got.get("k"), "step": i,
                         "detail": "creating %s(%r) changed %s (current language now %s)" % (cat, lemma, canon(a["d"]), a.get("cur"))}
+            if pred[0] in ("unknown", "other") and got.get("k") == pred[0]:
+                if step.get("exc") and got.get("raised") != "PyrealbException":
+                    return {"sig": "terminal:unknown-report:no-PyrealbException-under-exceptionOnWarning", "step": i,
+                            "detail": "%s(%r) is %s: with Constituent.exceptionOnWarning=True the report must raise PyrealbException "
+                                      "every time; got %s" % (cat, lemma, pred[0], canon(got))}
+                if not step.get("exc") and got.get("warns", 0) < 1:
+                    return {"sig": "terminal:unknown-report:no-warning", "step": i,
+                            "detail": "%s(%r) is %s: no 'not in lexicon' warning was issued; got %s" % (cat, lemma, pred[0], canon(got))}
             if term_agrees(pred, got):
                 if pred[0] == "found" and cat == "N":
                     want = expected_np(W.rules[tl], tl, lemma, json.loads(ref.lex[tl][lemma][cat]))
@@ -809,6 +842,19 @@ def fixed_histories(W):
             {"t": "add", "lemma": "zœrgy", "d": {"ref": 1000, "init": n1}, "lang": None},
             {"t": "term", "cat": "N", "lemma": "zœrgy", "lang": None}]},
     ]
+    # the unknown report must come EVERY time, in both modes (these two run first: nothing precedes them in the process)
+    hs.insert(0, {"cur": "en", "stratum": "witness", "steps": [
+        {"t": "term", "cat": "N", "lemma": "zorgly", "lang": None, "exc": True},
+        {"t": "term", "cat": "V", "lemma": "zorgly", "lang": None},
+        {"t": "term", "cat": "N", "lemma": "zorgly", "lang": "fr"}]})
+    hs.insert(1, {"cur": "en", "stratum": "witness", "steps": [
+        {"t": "term", "cat": "N", "lemma": "zorgly", "lang": None, "exc": True},
+        {"t": "term", "cat": "N", "lemma": "zorgly", "lang": "fr", "exc": True},
+        {"t": "add", "lemma": "zorgly", "d": {"ref": 1000, "init": n1}, "lang": None},
+        {"t": "term", "cat": "V", "lemma": "zorgly", "lang": None, "exc": True},
+        {"t": "remove", "lemma": "zorgly", "lang": None},
+        {"t": "term", "cat": "N", "lemma": "zorgly", "lang": None},
+        {"t": "term", "cat": "N", "lemma": "zorgly", "lang": None, "exc": True}]})
     for h in hs:
         h["lemmas"] = ["zorgly", "zœrgy"]
     return hs
@@ -882,7 +928,10 @@ def gen_history(rng, W, stratum):
         lang = None if x < 0.5 else (cur if x < 0.7 else ("fr" if cur == "en" else "en"))
         if stratum == "malformed" and rng.random() < 0.1:
             lang = "de"
-        return {"t": "term", "cat": rng.choice(CATS), "lemma": lemma, "lang": lang}
+        st = {"t": "term", "cat": rng.choice(CATS), "lemma": lemma, "lang": lang}
+        if rng.random() < 0.3:
+            st["exc"] = True       # constructed while Constituent.exceptionOnWarning is True
+        return st
 
     n = rng.randint(4, 16)
     while len(h["steps"]) < n:
@@ -1076,8 +1125,11 @@ def worker_main():
     for f in res["fails"]:
         if f["sig"] not in best or len(canon(f["input"])) < len(canon(best[f["sig"]]["input"])):
             best[f["sig"]] = f
+    first = {}
+    for f in res["fails"]:
+        first.setdefault(f["sig"], f)      # the earliest failure of a worker is the one most likely to be self-contained
     if job.get("shrink", True):
-        res["fails"] = [dict(shrink(W, job["driver"], f), original=f) for f in best.values()]
+        res["fails"] = [dict(shrink(W, job["driver"], f), original=f, first=first[f["sig"]]) for f in best.values()]
     else:
         res["fails"] = list(best.values())
     if job.get("verbose"):
@@ -1154,19 +1206,36 @@ def run(ctx, deep=False):
             dist[kk] = dist.get(kk, 0) + v
     # a shrunk failing history is only reported if it fails the same way in a FRESH process (hidden state of a broken
     # implementation may have carried over from earlier histories of the worker); else the unshrunk one is reported
-    best = {}
+    cands = {}
     for f in all_fails:
-        if f["sig"] not in best or len(canon(f["input"])) < len(canon(best[f["sig"]]["input"])):
-            best[f["sig"]] = f
-    order = sorted(best)
-    vjobs = [{"seed": 0, "pool_seed": 0, "n": 0, "driver": ctx.driver, "histories": [best[sg]["input"]], "shrink": False,
-              "deep_ratio": 1.0, "pool": [k for k in best[sg]["input"]["lemmas"] if k not in FRESH]} for sg in order]
-    for sg, vr in zip(order, collect([spawn(j) for j in vjobs])):
-        f = best[sg]
-        if any(x["sig"] == sg for x in vr["fails"]) or "original" not in f:
-            ctx.fail(sg, f["input"], f["detail"])
+        c = cands.setdefault(f["sig"], [])
+        c.append((f["input"], f["detail"]))
+        for k in ("original", "first"):
+            if k in f:
+                c.append((f[k]["input"], f[k]["detail"]))
+    vjobs = []
+    for sg in sorted(cands):
+        uniq = {}
+        for inp, det in cands[sg]:
+            uniq.setdefault(canon(inp), (inp, det))
+        # the fixed witness histories and each worker's earliest failure are the likeliest to be self-contained
+        byrank = sorted(uniq.values(), key=lambda x: (x[0].get("stratum") != "witness", len(canon(x[0]))))
+        cands[sg] = byrank[:8]
+        for inp, det in cands[sg]:
+            vjobs.append((sg, inp, det, {"seed": 0, "pool_seed": 0, "n": 0, "driver": ctx.driver, "histories": [inp],
+                                         "shrink": False, "deep_ratio": 1.0,
+                                         "pool": [k for k in inp["lemmas"] if k not in FRESH]}))
+    confirmed = {}
+    for (sg, inp, det, _), vr in zip(vjobs, collect([spawn(j[3]) for j in vjobs])):
+        got = [x for x in vr["fails"] if x["sig"] == sg]
+        if got and (sg not in confirmed or len(canon(inp)) < len(canon(confirmed[sg][0]))):
+            confirmed[sg] = (inp, got[0]["detail"])
+    for sg in sorted(cands):
+        if sg in confirmed:
+            ctx.fail(sg, confirmed[sg][0], confirmed[sg][1])
         else:
-            ctx.fail(sg, f["original"]["input"], f["original"]["detail"] + " (not reproducible after shrinking)")
+            inp, det = cands[sg][-1]
+            ctx.fail(sg, inp, det + " (seen inside a worker process; not reproduced by this history alone in a fresh process)")
     ctx.notes["distribution"] = dict(sorted(dist.items()))
     ctx.notes["steps_total"] = steps
     ctx.notes["pool"] = results[0]["pool"] + FRESH
